@@ -76,6 +76,13 @@ func EllipticUnmarshalCompressed(c elliptic.Curve, data []byte) (*big.Int, *big.
 	if len(data) != 49 {
 		return nil, nil
 	}
+	// an encoding that was produced by this model and merely copied around is recognised
+	// syntactically; only foreign bytes are compared semantically
+	for i := range ptReg {
+		if vSameTerm(ptReg[i].enc, data) {
+			return newPointXY(ptReg[i].pt)
+		}
+	}
 	for i := range ptReg {
 		if vBytesEq(ptReg[i].enc, data) {
 			return newPointXY(ptReg[i].pt)
@@ -214,6 +221,12 @@ func EcdsaVerify(pub *ecdsa.PublicKey, hash []byte, r, s *big.Int) bool {
 		return false
 	}
 	enc := encodePoint(ptGhost[pub.X])
+	for i := range sigLog {
+		e := sigLog[i]
+		if vSameTerm(e.pub, enc) && vSameTerm(e.digest, hash) && vSameTerm(e.r, rb) && vSameTerm(e.s, sb) {
+			return true
+		}
+	}
 	for i := range sigLog {
 		e := sigLog[i]
 		if vBytesEq(e.pub, enc) {
